@@ -39,6 +39,12 @@ def gen_program(rng):
         lines.append("/**\n * @jsxRuntime classic\n%s%s */" % (" * @jsx %s\n" % pf if pf else "", " * @jsxFrag %s\n" % pg if pg else ""))
     else:
         lines.append("/** %s%s @jsxImportSource preact */" % ("@jsx " + pf + " " if pf else "", "@jsxFrag " + pg if pg else ""))
+    selfref = None
+    if rng.random() < 0.3:
+        # a component whose only use is rendering itself stays unused; it comes first so that it holds the file's first JSX element
+        selfref = rng.choice(["Tree", "Node0", "Menu"])
+        lines.append({"Tree": "function Tree() { return <Tree />; }", "Node0": "const Node0 = () => <Node0/>;",
+                      "Menu": "class Menu { render() { return <Menu.Item/>; } }"}[selfref])
     for i, n in enumerate(decl):
         k = rng.randrange(4)
         lines.append(["import %s from 'm%d';" % (n, i), "import * as %s from 'n%d';" % (n, i), "const %s = %d;" % (n, i), "function %s() {}" % n][k])
@@ -55,7 +61,24 @@ def gen_program(rng):
         lines.append("void (<><p/></>);" if he or rng.random() < 0.5 else "void (<></>);")
         if "<p/>" in lines[-1]:
             he = True
+    if selfref:
+        decl = [selfref] + decl
+        he = True
     return {"src": "\n".join(lines) + "\n", "decl": decl, "used": used, "pf": pf, "pg": pg, "he": he, "hf": hf}
+
+
+SPECS = [None, None, "file:///v/case", "https://example.com/mod?x=1", "file:///v/case.js", "file:///v/case.ts", "file:///v/case.jsx", "file:///v/some.dir/case.tsx?v=2"]
+
+
+def entry_variant(rng):
+    """the entry point (lint_file / lint_with_ast) and a specifier that may disagree with the media type"""
+    v = {}
+    if rng.random() < 0.35:
+        v["entry"] = "ast"
+    sp = rng.choice(SPECS)
+    if sp:
+        v["spec"] = sp
+    return v
 
 
 @register("C18")
@@ -75,7 +98,7 @@ def c18(ctx):
     cases, lines, meta = [], [], []
     for p in progs:
         cf, cg = rng.choice(CONFIGS)
-        cases.append({"src": p["src"], "media": "tsx", "rules": ["no-unused-vars"], "jsx": cf, "jsxfrag": cg})
+        cases.append(dict({"src": p["src"], "media": "tsx", "rules": ["no-unused-vars"], "jsx": cf, "jsxfrag": cg}, **entry_variant(rng)))
         lines.append(" ".join([enc_ol(idents_of(cf)), enc_ol(idents_of(cg)), enc_ol(idents_of(p["pf"])), enc_ol(idents_of(p["pg"])),
                                "1" if p["he"] else "0", "1" if p["hf"] else "0", pipe.enc_list(p["decl"], pipe.enc_str), pipe.enc_list(p["used"], pipe.enc_str)]))
     impl = lib.run_vh("lint", cases)
@@ -122,13 +145,15 @@ def c18(ctx):
         elif pr < 0.25:
             src = "/** @jsx h */\n/** @jsxFrag Fragment */\n" + src
         k = len(dcases)
+        ev = entry_variant(rng)
         for (cf, cg) in CONFIGS:
-            dcases.append({"src": src, "media": media, "rules": "all", "jsx": cf, "jsxfrag": cg})
+            dcases.append(dict({"src": src, "media": media, "rules": "all", "jsx": cf, "jsxfrag": cg}, **ev))
         dmeta.append((k, src, media, pr))
     for p in progs[:600 if ctx.tier == "quick" else 6000]:
         k = len(dcases)
+        ev = entry_variant(rng)
         for (cf, cg) in CONFIGS:
-            dcases.append({"src": p["src"], "media": "tsx", "rules": "all", "jsx": cf, "jsxfrag": cg})
+            dcases.append(dict({"src": p["src"], "media": "tsx", "rules": "all", "jsx": cf, "jsxfrag": cg}, **ev))
         dmeta.append((k, p["src"], "tsx", 1.0 if not (p["pf"] and p["pg"]) else 0.2))
     res = lib.run_vh("lint", dcases, per_case_timeout=5)
     nontriv2 = set()
